@@ -63,9 +63,12 @@ SubstrIds(T, sa, bwt, step, p) == LET r == Search(bwt, p) IN
                                   IF r[1] > r[2] THEN {} ELSE {Resolve(T, sa, bwt, step, row) : row \in r[1]..r[2]}
 
 VARIABLES S, p, step
-Init == /\ \E Tt \in SUBSET Strs : Cardinality(Tt) \in 1..MaxN /\ S = SortSeq(SetToSeq(Tt), LexLess)
-        /\ p \in Strs /\ step \in Steps
-Next == UNCHANGED <<S, p, step>>
+\* three steps so that TLC's workers share the work: choose the member set, then the pattern, then the sampling step
+Init == S = <<>> /\ p = <<>> /\ step = 0
+Next == \/ /\ S = <<>> /\ \E Tt \in SUBSET Strs : Cardinality(Tt) \in 1..MaxN /\ S' = SortSeq(SetToSeq(Tt), LexLess)
+           /\ UNCHANGED <<p, step>>
+        \/ /\ S # <<>> /\ p = <<>> /\ p' \in Strs /\ UNCHANGED <<S, step>>
+        \/ /\ p # <<>> /\ step = 0 /\ step' \in Steps /\ UNCHANGED <<S, p>>
 Spec == Init /\ [][Next]_<<S, p, step>>
 
 T0 == Text(S)
@@ -77,5 +80,5 @@ ExtractOK == \A i \in 1..n0 : ExtractId(bw0, n0, i) = S[i]
 PrefixOK  == LET e == {i \in 1..n0 : IsPrefixOf(p, S[i])} r == PrefixRange(bw0, p) IN
              IF e = {} THEN r = <<0, 0>> ELSE r = <<Min(e), Max(e)>>
 SubstrOK  == SubstrIds(T0, sa0, bw0, step, p) = {i \in 1..n0 : IsSubstrOf(p, S[i])}
-Inv == LocateOK /\ ExtractOK /\ PrefixOK /\ SubstrOK
+Inv == step # 0 => (LocateOK /\ ExtractOK /\ PrefixOK /\ SubstrOK)
 =============================================================================
